@@ -663,8 +663,9 @@ def r4_4_counts(rep, facts):
             if not r.called(name):
                 continue
             n += 1
-            w = {ir.show(pl): val for (pl, val, nd, s_) in r.writes}
-            ro = [v for k, v in w.items() if k.endswith(".output") and "res" in k]
+            from .c02 import status_write
+            sw = status_write(r, 'output')
+            ro = [sw] if sw is not None else []
             if not ro or not any(x[0] == 'call' and x[1] == name for x in ir.walk(ro[0])):
                 ok = False
         if ok and n:
